@@ -1,7 +1,8 @@
 /-
   Props/C16Full.lean — the module audited for C16: Props/C16Surplus.lean (and what it imports) together with
   Props/C16Ieee.lean (the IEEE / real-analysis instantiations) and Props/C16IeeeBezierDiverge.lean (F23: the Bezier
-  flattening loop diverges in f32 on a finite input). All in namespace Rosu.C16.
+  flattening loop diverges in f32 on a finite input) and Props/C16IeeeCut.lean (where the re-projected end point lies in
+  f32: rounding-error bounds for the cut and the extension). All in namespace Rosu.C16.
 -/
 import RosuModel.Props.C16Surplus
 import RosuModel.Props.C16Ieee
@@ -9,3 +10,4 @@ import RosuModel.Props.C16IeeeLen
 import RosuModel.Props.C16IeeeAdj
 import RosuModel.Props.C16IeeeAdjWitness
 import RosuModel.Props.C16IeeeBezierDiverge
+import RosuModel.Props.C16IeeeCut
